@@ -423,7 +423,13 @@ def weave_fn(sf, it, spec, log, where, canary=False):
     auto_array_let_edits(sf, it.body_lo, it.body_hi, ed, log, where, protected)
     # hints
     if spec.mode == 'verify':
-        for anchor, pos, text in spec.hints:
+        for hint in spec.hints:
+            anchor, pos, text = hint[0], hint[1], hint[2]
+            ghost_let = len(hint) > 3 and hint[3] == 'ghost'
+            if ghost_let:
+                for g in text.split(';'):
+                    if g.strip() and not g.strip().startswith('let ghost '):
+                        raise Undecided('%s: a ghost hint may only contain `let ghost` statements' % where)
             pat = [t.text for t in lex(anchor)]
             hits = _find_seq(toks, it.body_lo, it.body_hi + 1, pat)
             if len(hits) != 1:
@@ -433,7 +439,7 @@ def weave_fn(sf, it, spec, log, where, canary=False):
                 p = toks[h + len(pat) - 1].end
             else:
                 p = toks[h].start
-            ed.add(p, p, '\n proof { ' + text + ' }\n')
+            ed.add(p, p, ('\n ' + text + '\n') if ghost_let else ('\n proof { ' + text + ' }\n'))
     return ed.render()
 
 
